@@ -1,9 +1,37 @@
-(* C01 — placeholder until the refinement proof lands (see FS/RefineProofs.v). *)
+(* C01 — All writable filesystems implement one reference semantics.
+   Proved part: the MemoryFS model (FS/Mem.v + the derived methods of FS/Base.v it uses)
+   refines the reference semantics FS/Ref.v, for every reachable state and every argument,
+   for all calls that do not go through the directory walker; the walker-based calls
+   (copydir, makedirs, movedir onto an existing destination) and the other backends are
+   tied to the reference by the correspondence run only (C01_conformance_partial). *)
 From Coq Require Import List NArith Bool.
-From PyFS Require Import Base.PyStr Base.Outcome FS.Tree FS.Ops FS.Ref FS.Agree FS.Mem.
+From PyFS Require Import Base.PyStr Base.Outcome FS.Tree FS.Ops FS.Ref FS.Agree FS.Mem FS.Wf
+     FS.RefineProofs.
 Import ListNotations.
 
-Theorem C01_ref_makedir_example :
-  agree (mem_run (OMakedir [97%N] false) empty_dir) (ref_run (OMakedir [97%N] false) empty_dir) = true.
-Proof. reflexivity. Qed.
-Print Assumptions C01_ref_makedir_example.
+Theorem C01_wf_initial : wf empty_dir.
+Proof. exact wf_empty. Qed.
+Print Assumptions C01_wf_initial.
+
+(* every reachable state is well formed (unique, slash-free, non-empty names) *)
+Theorem C01_wf_preserved : forall o s, wf s -> covered o = true -> wf (fst (mem_run o s)).
+Proof. exact mem_wf_preserved. Qed.
+Print Assumptions C01_wf_preserved.
+
+(* same verdict, admissible error class, same return value, same tree *)
+Theorem C01_conformance_partial : forall o s, wf s -> covered o = true ->
+  agree (mem_run o s) (ref_run o s) = true.
+Proof. exact mem_refines_ref. Qed.
+Print Assumptions C01_conformance_partial.
+
+Theorem C01_movedir_fast_path : forall src dst create pt s cs cd,
+  wf s -> rpath src = inl cs -> rpath dst = inl cd -> lookup s cd = None ->
+  agree (mem_run (OMovedir src dst create pt) s) (ref_run (OMovedir src dst create pt) s) = true.
+Proof. exact mem_movedir_refines_ref. Qed.
+Print Assumptions C01_movedir_fast_path.
+
+Theorem C01_movedir_fast_path_wf : forall src dst create pt s cs cd,
+  wf s -> rpath src = inl cs -> rpath dst = inl cd -> lookup s cd = None ->
+  wf (fst (mem_run (OMovedir src dst create pt) s)).
+Proof. exact mem_movedir_wf. Qed.
+Print Assumptions C01_movedir_fast_path_wf.
